@@ -59,9 +59,18 @@ def ob_fragment(ctx):
     ftype = P.get("ftype", "CDS")  # "source": provenance written by an earlier assembly, inherited like any feature
     feat = build_feature(st, parts, ftype, quals, fid="F1")
     data = tags(n)
-    rec = st.record.CircularRecord(st.Seq(data), id="plasmid", features=[feat])
     cls = Mod if role == "module" else Vec
-    ent = cls(rec, st.Seq("AA"), st.Seq("CC"), module_spans(s1, e1, e2, e3))
+    if P.get("history"):
+        # the same entity already gave its fragment once, when the plasmid's map still carried another feature; the map
+        # was then edited in place (a part re-annotated between two assemblies)
+        old = build_feature(st, [(0, 1, 1)], "misc_feature", {"label": ["old"]}, fid="OLD")
+        rec = st.record.CircularRecord(st.Seq(data), id="plasmid", features=[old])
+        ent = cls(rec, st.Seq("AA"), st.Seq("CC"), module_spans(s1, e1, e2, e3))
+        ent.target_sequence()
+        rec.features[:] = [feat]
+    else:
+        rec = st.record.CircularRecord(st.Seq(data), id="plasmid", features=[feat])
+        ent = cls(rec, st.Seq("AA"), st.Seq("CC"), module_spans(s1, e1, e2, e3))
     frag = ent.target_sequence()
     ctx.observe("frag", frag)
     if role == "module":
@@ -171,6 +180,11 @@ def obligations(tier, seed):
                     obs.append(Ob("fragment of a %s n=%d carrying an inherited source feature" % (role, n), ob_fragment,
                                   dict(n=n, role=role, parts=parts, ftype="source"), samples=6, cost=n ** 2 * 20,
                                   expect_witness=("inherited", "dropped")))
+    for role in ("module", "vector"):
+        for n in tier_pick(tier, (6,), (4, 9)):
+            obs.append(Ob("fragment of a %s n=%d asked again after its map was edited in place" % (role, n), ob_fragment,
+                          dict(n=n, role=role, parts=1, history=True), samples=6, cost=2 * n ** 2 * 20, group="history",
+                          expect_witness=("inherited", "dropped")))
     for m in (1, 2):
         for two in range(m + 1):
             obs.append(Ob("concatenation m=%d (two-part feature in element %d)" % (m, two), ob_concat,
